@@ -445,6 +445,65 @@ Section WhileFacts.
     exists curF. split; [exact Hp|]. now apply publish_final.
   Qed.
 
+  (* ---- the other direction: when the Python loop succeeds, the body keeps the structure of what it may mutate, and the
+     traced first evaluation of the body succeeds, the lifted loop succeeds too and agrees ---- *)
+  Hypothesis body_shape : forall v c c1 w, body_fn v im c = Some (c1, w) ->
+    cshape (filter (fun cv => im (fst cv)) w) = cshape (filter (fun cv => im (fst cv)) v).
+
+  Lemma cshape_eqb_refl' a b : cshape a = cshape b -> cshape_eqb a b = true.
+  Proof.
+    intros H. unfold cshape_eqb. rewrite H. generalize (cshape b). induction l as [|[c1 l1] r IH]; [reflexivity|].
+    cbn [list_beq]. unfold pair_beq at 1. cbn [fst snd]. rewrite N.eqb_refl. cbn [andb].
+    rewrite (proj2 (list_beq_spec name_eqb name_eqb_eq l1 l1) eq_refl). exact IH.
+  Qed.
+
+  Lemma bcast_not_im x : In x bcast -> im (fst x) = false.
+  Proof.
+    intros H. apply filter_In in H as [_ H]. rewrite im_m. unfold m. apply negb_true_iff in H. rewrite H. apply andb_false_r.
+  Qed.
+
+  Lemma wbody_complete carry cur c c' wp : Inv carry cur -> body_fn cur m c = Some (c', wp) ->
+    exists cv', wbody C body_fn im cf carry bcast c = Some (c', cv').
+  Proof.
+    intros (Heq & Hsh & Him) Hb.
+    pose proof (body_ext (carry ++ bcast) cur im m c Heq im_m) as X. rewrite Hb in X.
+    unfold wbody. destruct (body_fn (carry ++ bcast) im c) as [[c1 w]|] eqn:E; [|contradiction]. destruct X as [-> _].
+    rewrite repack_single by (intros x; unfold im; rewrite inner_mutable_single; intros Hx; now apply andb_true_iff in Hx as [_ Hx]).
+    assert (Hs : cshape (filter (fun cv => im (fst cv)) w) = cshape carry).
+    { rewrite (body_shape _ _ _ _ E), filter_app.
+      rewrite (filter_all _ carry) by (intros x Hx; apply Him; now apply in_map).
+      rewrite (filter_none _ bcast) by (intros x Hx; now apply bcast_not_im). now rewrite app_nil_r. }
+    rewrite (cshape_eqb_refl' _ _ Hs). eauto.
+  Qed.
+
+  Lemma ploop_sim : forall fuel carry cur c cF curF, Inv carry cur ->
+    ploop C cond_fn body_fn fuel m cur c = Some (Some (cF, curF)) ->
+    exists cvF, wloop C cond_fn body_fn fuel im cf carry bcast c = Some (Some (cF, cvF)) /\ Inv cvF curF.
+  Proof.
+    induction fuel as [|f IH]; intros carry cur c cF curF HI H; cbn [wloop ploop] in *; [discriminate|].
+    unfold wcond. rewrite (cond_ext _ cur _ c (proj1 HI)).
+    destruct (cond_fn cur (fun _ => false) c) as [[|]|]; try discriminate.
+    - destruct (body_fn cur m c) as [[c' wp]|] eqn:Eb; [|discriminate].
+      destruct (wbody_complete _ _ _ _ _ HI Eb) as (cv' & Ew). rewrite Ew.
+      destruct (step_inv _ _ _ _ _ HI Ew) as (cur' & Hb' & HI'). rewrite Eb in Hb'. inversion Hb'; subst cur'.
+      exact (IH _ _ _ _ _ HI' H).
+    - inversion H; subst. exists carry. split; [reflexivity|exact HI].
+  Qed.
+
+  Theorem loop_is_while fuel c0 c cur r :
+    wbody C body_fn im cf carry0 bcast c0 = Some r ->           (* tracing: the body succeeds on the initial values *)
+    ploop C cond_fn body_fn fuel m xs c0 = Some (Some (c, cur)) ->
+    exists xs', lift_while C cond_fn body_fn fuel om cf (FBool true) xs c0 = Some (POk C c xs') /\ cveq xs' cur.
+  Proof.
+    intros Hw Hp. pose proof (inv_init _ _ Hw) as HI0.
+    destruct (ploop_sim _ _ _ _ _ _ HI0 Hp) as (cvF & Hl & HIF).
+    unfold lift_while. rewrite groups_true. cbn [nth]. fold im. rewrite Hw, Hl.
+    assert (Hc : exists b, wcond C cond_fn carry0 bcast c0 = Some b).
+    { destruct fuel as [|f]; [discriminate|]. cbn [ploop] in Hp. unfold wcond. rewrite (cond_ext _ xs _ c0 (proj1 HI0)).
+      destruct (cond_fn xs (fun _ => false) c0) as [b|]; [eauto|discriminate]. }
+    destruct Hc as [b ->]. eexists. split; [reflexivity|]. now apply publish_final.
+  Qed.
+
   (* collections that are not carried, or that the calling scope cannot mutate, come out as they went in -- whatever
      the broadcast filter and whatever the body does *)
   Theorem while_frame fuel bf c0 c xs' col :
